@@ -100,7 +100,7 @@ Consume ==
 \* indexed a shortened image, ...) the logged state is adopted and validation goes on.  A cell that appeared unasked is marked so.
 Adopt(obs, cur, v) == IF obs = cur.st THEN cur ELSE IF obs = "full" THEN Unasked(v) ELSE IF obs = "torn" THEN Torn ELSE IF obs = "blocked" THEN Blocked ELSE Absent
 Resync ==
-    /\ needSync
+    /\ needSync /\ PrintT(<<"RESYNC", tid, l - 1>>)
     /\ LET ev == Lines[l - 1] IN
          /\ local' = [x \in Locs |-> [m \in ImageSet |-> Adopt(ev.cells["local"][x][m], local[x][m], store[x].ver)]]
          /\ adjacent' = [x \in Locs |-> [m \in ImageSet |-> Adopt(ev.cells["adjacent"][x][m], adjacent[x][m], store[x].ver)]]
